@@ -8,15 +8,18 @@ import common, gen2, lpdump, e1misc, props
 
 LEVEL = "proof"
 EXPLANATION = (
-    "Props/C15.v: encode_mgs rows admit only assignments whose Gen values are a multiset of size k with sum total from which every "
-    "retained number is a sum with integer multiplicities in [0, max_multiplicity] (products through the C12 bridge theorems), "
-    "partition block respected (soundness, all multiplicities); for max_multiplicity = 1 without partition block also completeness "
-    "(every sorted generating multiset is admitted: the symmetry rows lose nothing). Pre-processing: complement/total/zero/duplicate "
-    "removal is sound for max_multiplicity = 1 (proved), refuted for larger multiplicities (open finding). Search loop: returns the "
-    "first k of its range with status Optimal; exclusive upper end refuted ([1,2,4]/7, [5]/6), skipped inconclusive statuses refuted, "
-    "int() truncation refuted. encode_msc rows are satisfied exactly by the covers, objective = total weight; default weights "
-    "(None) build no model (refuted). Optimality itself is relative to the solver specification (DESIGN §4) and sampled by E2 "
-    "against exhaustive minima. _partial: completeness of encode_mgs for max_multiplicity > 1 / with partition block is not proved.")
+    "Props/C15.v (models follow the code after fixes 03febc7, 2966290, f5a395c, 4e8a1f8, 1af0609, 9a3699a, 295fbde, b959a54, 883b781): "
+    "encode_mgs rows admit only assignments whose Gen values are a multiset of size k with sum total from which every retained number is a "
+    "sum with integer multiplicities in [0, max_multiplicity] (products through the C12 bridge theorems; bit vector sized from "
+    "max(total, max_multiplicity), which represents every admissible multiplicity), partition block respected (soundness, all multiplicities). "
+    "Pre-processing as it is (complements removed only for max_multiplicity = 1) loses nothing for every multiplicity. Search loop: an answer k "
+    "is the least feasible size >= lowerbound; unsolved only if the whole range lowerbound..len(numbers)+1+extra_cuts was proven infeasible or "
+    "an inconclusive status was met; succeeds when a size of the range is feasible and statuses are conclusive. round() reads a solver value "
+    "within 1/2 of an integer as that integer. encode_msc rows are satisfied exactly by the covers, objective = total weight, default weights "
+    "= unit weights. Every fixed defect keeps a _refuted theorem about the explicitly named OLD variant (mgsm_range_old, mgsm_loop_old, "
+    "mgs_preprocess_old, encode_mgs_old, py_int, encode_msc_old). Optimality is relative to the solver specification (DESIGN §4) and sampled "
+    "by E2 against exhaustive minima. _partial: completeness of encode_mgs (every sorted generating multiset admitted) and adequacy of the "
+    "range's upper end (cut-point construction) are not proved in Coq; both are sampled by E2.")
 ASSUMPTIONS = ["HiGHS status kOptimal => returned assignment satisfies the rows within 1e-9 and is optimal; kInfeasible => no assignment (solver specification, DESIGN §4)",
                "float instances use dyadic values (exact in doubles); float answers are checked with tolerance 1e-6, integer answers exactly",
                "exhaustive minima: integer multisets over 0..total (total <= 12, size <= 4); set covers over all 2^n subfamilies (n <= 8)"]
@@ -93,7 +96,7 @@ def check_mgs_answer(ctx, kw, scale, r, rep):
     nums, total, parts = exact_numbers(kw, scale)
     oracle = props.min_genset(nums, total, mult, parts, lowerbound=lb, maxsize=4)
     n_init = len(kw["numbers"])
-    code_range = list(range(lb, max(lb + 1, n_init + 2)))
+    code_range = list(range(lb, max(lb + 1, n_init + 2 + e1misc.extra_cuts(kw.get("partition_constraints")))))
     if not r["ok"]:
         ctx.count("E2_genset", "unsolved")
         if oracle is not None:
@@ -169,7 +172,7 @@ def mgs_engine(ctx):
             ctx.report("MinGenSet raised " + repr(e), rep); continue
         m = r["m"]
         # ---- E3 pre-processing
-        reqs_pre.append(e1misc.mgspre_request(kw["remove_complement_values"], kw["numbers"], kw["total"]))
+        reqs_pre.append(e1misc.mgspre_request(kw["remove_complement_values"], kw["max_multiplicity"], kw["numbers"], kw["total"]))
         pre_cases.append((kw, sorted(F(x) for x in m.numbers), rep))
         # ---- E1 per k
         lines = [e1misc.mgs_request(m, k) for k, _ in r["caps"]]
@@ -187,7 +190,7 @@ def mgs_engine(ctx):
         # ---- E4 k sequence with the real statuses
         tried = [k for k, _ in r["caps"]]
         lo = ctx.model.run([e1misc.mgsloop_request(kw["lowerbound"], len(kw["numbers"]),
-                                                   dict(r["statuses"]))])[0]
+                                                   dict(r["statuses"]), kw.get("partition_constraints"))])[0]
         mt, mres, mrange = e1misc.parse_loop(lo)
         ctx.count("E4_k_sequence", "cases")
         got = (tried, len(m.get_solution()) if r["ok"] else None)
@@ -210,7 +213,7 @@ def mgs_engine(ctx):
                     ctx.report("MinGenSet raised under an injected status " + repr(e), rep); continue
                 tried2 = [k for k, _ in r2["caps"]]
                 lo2 = ctx.model.run([e1misc.mgsloop_request(kw["lowerbound"], len(kw["numbers"]),
-                                                            dict(r2["statuses"]))])[0]
+                                                            dict(r2["statuses"]), kw.get("partition_constraints"))])[0]
                 mt2, mres2, _ = e1misc.parse_loop(lo2)
                 ctx.count("E4_k_sequence_injected", "cases")
                 got2 = (tried2, len(r2["m"].get_solution()) if r2["ok"] else None)
@@ -255,9 +258,9 @@ def int_truncation_probe(ctx):
     finally:
         sw.SolverWrapper.get_values = orig
     ctx.count("probe_int_truncation", "cases")
-    out = ctx.model.run(["pyint 29999999 10000000"])[0]
-    if out.strip() != "I 2":
-        ctx.report("model py_int(2.9999999) != 2: " + out, {}, concrete=False)
+    out = ctx.model.run(["pyint 29999999 10000000", "pyround 29999999 10000000", "pyround 5 2", "pyround 7 2"])
+    if [o.strip() for o in out] != ["I 2", "I 3", "I 2", "I 4"] or [round(2.9999999), round(2.5), round(3.5)] != [3, 2, 4]:
+        ctx.report("model py_int / py_round_half_even disagree with Python int()/round(): " + repr(out), {}, concrete=False)
     if ok and sol != [3]:
         ctx.report(f"MinGenSet(weight_type=int) turns the solver value 3 - 1e-7 into {sol} (int() truncates): sum is no longer the total",
                    {"class": "MinGenSet", "args": describe(kw), "injected": "get_values: 3 -> 3 - 1e-7"}, key="mgs_int_truncation")
@@ -270,6 +273,15 @@ def witness_probes(ctx):
         r = run_mgs(ctx, kw)
         ctx.count("probe_witness", "cases")
         check_mgs_answer(ctx, kw, 1, r, {"class": "MinGenSet", "args": describe(kw), "witness": "Props/C15.v C15_loop_old_upper_end_refuted (fixed finding; must be solved now)"})
+    # fixed corpus: mgs_pi_bounded_by_total (a068bcc): {1} generates 1 and 2 = 2*1; the old code returned [0.5, 0.5]
+    for wt in (float, int):
+        kw = dict(numbers=[wt(1), wt(2)], total=wt(1), weight_type=wt, max_multiplicity=2, lowerbound=1, remove_complement_values=True)
+        r = run_mgs(ctx, kw)
+        ctx.count("probe_witness", "cases")
+        check_mgs_answer(ctx, kw, 1, r, {"class": "MinGenSet", "args": describe(kw), "witness": "Props/C15.v C15_pi_bound_old_refuted (fixed finding mgs_pi_bounded_by_total)"})
+        if r["ok"] and len(r["m"].get_solution()) != 1:
+            ctx.report(f"MinGenSet([1,2], total 1, multiplicity 2) returns {r['m'].get_solution()} although {{1}} generates both numbers", {"class": "MinGenSet", "args": describe(kw)},
+                       key="mgs_pi_bounded_by_total")
     kw = dict(numbers=[2, 3, 2], total=5, weight_type=int, max_multiplicity=2, lowerbound=1, remove_complement_values=True)
     r = run_mgs(ctx, kw)
     ctx.count("probe_witness", "cases")
@@ -316,7 +328,8 @@ def msc_engine(ctx):
             ok = m.solve()
         except Exception as e:
             ctx.report("MinSetCover.solve raised " + repr(e), rep); continue
-        best = props.min_setcover(kw["universe"], kw["subsets"], kw["subset_weights"])
+        weights = kw["subset_weights"] if kw["subset_weights"] is not None else [1] * len(kw["subsets"])   # documented default
+        best = props.min_setcover(kw["universe"], kw["subsets"], weights)
         ctx.case(["msc", kw], nontrivial=len(kw["subsets"]) >= 2 and has_cover, sample=kw if i < 3 else None)
         if not ok:
             ctx.count("E2_setcover", "unsolved")
@@ -325,6 +338,7 @@ def msc_engine(ctx):
             else:
                 try:
                     s = m.is_solved()
+                    ctx.count("E2_setcover", "is_solved_false_after_failed_solve")
                     if s:
                         ctx.report("MinSetCover.is_solved() is True after solve() returned False", rep)
                 except AttributeError as e:
@@ -342,13 +356,13 @@ def msc_engine(ctx):
             exact_one = all(v == 1 or round(v) != 1 for v in raw.values())
             key = None
             if not exact_one and props.setcover_ok(kw["universe"], kw["subsets"], rounded) is None and best is not None \
-                    and sum(F(kw["subset_weights"][j]) for j in rounded) == best[0]:
+                    and sum(F(weights[j]) for j in rounded) == best[0]:
                 key = "msc_exact_equality_on_solver_value"
             ctx.report(f"MinSetCover answer {sol} is not a cover: {why} (solver values {raw}; the code keeps subset i only if value == 1 exactly)",
                        dict(rep, solution=sol, raw={str(a): b for a, b in raw.items()}), key=key); continue
         if m.get_solution(as_subsets=True) != [kw["subsets"][j] for j in sol]:
             ctx.report("get_solution(as_subsets=True) differs from the indexed subsets", dict(rep, solution=sol)); continue
-        w = sum(F(kw["subset_weights"][j]) for j in sol)
+        w = sum(F(weights[j]) for j in sol)
         if best is None or w != best[0]:
             ctx.report(f"MinSetCover returned a cover of weight {w}; exhaustive minimum {best}", dict(rep, solution=sol))
         else:
@@ -384,12 +398,13 @@ def replay(ctx, body):
         try:
             m = fp.MinSetCover(solver_options=dict(SO), **args)
             ok = m.solve()
+            ws = args["subset_weights"] if args.get("subset_weights") is not None else [1] * len(args["subsets"])
             if not ok:
-                return props.min_setcover(args["universe"], args["subsets"], args["subset_weights"]) is not None
+                return props.min_setcover(args["universe"], args["subsets"], ws) is not None
             sol = m.get_solution()
-            best = props.min_setcover(args["universe"], args["subsets"], args["subset_weights"])
+            best = props.min_setcover(args["universe"], args["subsets"], ws)
             return props.setcover_ok(args["universe"], args["subsets"], sol) is not None or \
-                sum(F(args["subset_weights"][j]) for j in sol) != best[0]
+                sum(F(ws[j]) for j in sol) != best[0]
         except Exception:
             return True
     after = len(ctx.violations) + sum(ctx.engines.get("known_findings", {}).values())
